@@ -223,7 +223,13 @@ func registerIntrinsics(e *Engine) {
 			if k >= len(ev.Args) {
 				return FalseT
 			}
-			return st.eqValues(ev.Args[k], a[2])
+			want := a[2]
+			if iv, ok := want.(*IfaceV); ok {
+				if _, argIsIface := ev.Args[k].(*IfaceV); !argIsIface && iv.T != nil {
+					want = iv.V // the argument was recorded at its static (non-interface) type
+				}
+			}
+			return st.eqValues(ev.Args[k], want)
 		}
 		return FalseT
 	}
@@ -639,18 +645,75 @@ func registerLibHooks(e *Engine) {
 		o := st.newObject(types.NewArray(types.Typ[types.String], int64(len(parts))), "fields", &ArrayV{E: parts})
 		return &SliceV{Obj: o, Len: len(parts), Cap: len(parts)}
 	}
-	// synchronisation primitives: single-threaded model, lock discipline recorded.
+	// synchronisation primitives: single-threaded model. The lock state is
+	// tracked per lock object: acquiring a lock that is held can never succeed
+	// with one goroutine - the path ends as a deadlock (reported as a violation
+	// of the implicit obligation <harness>.deadlock).
 	noop := func(st *State, a []Value) Value { return nil }
-	for _, n := range []string{
-		"(*sync.Mutex).Lock", "(*sync.Mutex).Unlock", "(*sync.RWMutex).Lock", "(*sync.RWMutex).Unlock",
-		"(*sync.RWMutex).RLock", "(*sync.RWMutex).RUnlock", "(*sync.WaitGroup).Add", "(*sync.WaitGroup).Done", "(*sync.WaitGroup).Wait",
-	} {
+	for _, n := range []string{"(*sync.WaitGroup).Add", "(*sync.WaitGroup).Done", "(*sync.WaitGroup).Wait"} {
 		name := n
 		H[name] = func(st *State, a []Value) Value {
 			st.events = append(st.events, Event{Tag: name, Args: a})
 			return noop(st, a)
 		}
 	}
+	lockKey := func(v Value) string {
+		p, ok := v.(*PtrV)
+		if !ok || p.Obj == nil {
+			return "lock:nil"
+		}
+		return fmt.Sprintf("lock:%d:%v", p.Obj.ID, p.Path)
+	}
+	held := func(st *State, k string) int {
+		if t, ok := st.scratch[k].(*Term); ok && t.Const && t.CI != nil {
+			return int(t.CI.Int64())
+		}
+		return 0
+	}
+	set := func(st *State, k string, n int) { st.scratch[k] = IntT64(int64(n)) }
+	mkLock := func(name string, f func(st *State, k string)) {
+		H[name] = func(st *State, a []Value) Value {
+			st.events = append(st.events, Event{Tag: name, Args: a})
+			f(st, lockKey(a[0]))
+			return nil
+		}
+	}
+	mkLock("(*sync.Mutex).Lock", func(st *State, k string) {
+		if held(st, k+":w") != 0 {
+			st.abort("deadlock", "Lock of a sync.Mutex that is already held (single goroutine)")
+		}
+		set(st, k+":w", 1)
+	})
+	mkLock("(*sync.Mutex).Unlock", func(st *State, k string) {
+		if held(st, k+":w") == 0 {
+			st.throwRuntime("fatal", "sync: unlock of unlocked mutex")
+		}
+		set(st, k+":w", 0)
+	})
+	mkLock("(*sync.RWMutex).Lock", func(st *State, k string) {
+		if held(st, k+":w") != 0 || held(st, k+":r") != 0 {
+			st.abort("deadlock", "Lock of a sync.RWMutex that is already held (single goroutine)")
+		}
+		set(st, k+":w", 1)
+	})
+	mkLock("(*sync.RWMutex).Unlock", func(st *State, k string) {
+		if held(st, k+":w") == 0 {
+			st.throwRuntime("fatal", "sync: Unlock of unlocked RWMutex")
+		}
+		set(st, k+":w", 0)
+	})
+	mkLock("(*sync.RWMutex).RLock", func(st *State, k string) {
+		if held(st, k+":w") != 0 {
+			st.abort("deadlock", "RLock of a sync.RWMutex that is write-locked (single goroutine)")
+		}
+		set(st, k+":r", held(st, k+":r")+1)
+	})
+	mkLock("(*sync.RWMutex).RUnlock", func(st *State, k string) {
+		if held(st, k+":r") == 0 {
+			st.throwRuntime("fatal", "sync: RUnlock of unlocked RWMutex")
+		}
+		set(st, k+":r", held(st, k+":r")-1)
+	})
 	H["sync/atomic.LoadUint64"] = func(st *State, a []Value) Value {
 		if h := st.E.Hooks["@atomic-load"]; h != nil {
 			h(st, a)
